@@ -168,6 +168,10 @@ Section AL.
   Definition c11_al_observe (w : c11_al_world) : c11_res c11_al_obs :=
     c11_bind (c11_al_contents (fst w)) (fun l => c11_bind (c11_al_held w) (fun hv => C11_ok (al_size (fst w), l, hv))).
   Definition c11_al_run (fx : bool) := c11_run (c11_al_step fx) c11_al_observe.
+  (* deep observable (private members): start_, size_, capacity_, which chunk pointers are null *)
+  Definition c11_al_deep (s : c11_al) : nat * nat * nat * list bool :=
+    (al_start s, al_size s, al_cap s, map (fun c => match c with None => true | Some _ => false end) (al_chunks s)).
+  Definition c11_al_run_deep (fx : bool) := c11_run (c11_al_step fx) (fun w => C11_ok (c11_al_deep (fst w))).
 End AL.
 
 (* ---- ArrayList as snapshotted, with chunk identities (shared_ptr aliasing visible).  Used for the
@@ -473,6 +477,13 @@ Section SL.
              | Some (None, _) => C11_ok a
              | None => C11_ub end
     end.
+  (* per list: (tail_ is the last node reachable from beforeHead_, size_ = number of reachable nodes) *)
+  Definition c11_sl_deep1 (s : c11_sl) : c11_res (bool * bool) :=
+    c11_bind (c11_sl_last_addr (sl_free s) s 0) (fun a =>
+    c11_bind (c11_sl_contents s) (fun l => C11_ok (a =? sl_tail s, length l =? sl_size s))).
+  Definition c11_sl_observe_deep (w : c11_sl_world) : c11_res ((bool * bool) * (bool * bool)) :=
+    c11_bind (c11_sl_deep1 (fst w)) (fun a => c11_bind (c11_sl_deep1 (snd w)) (fun b => C11_ok (a, b))).
+  Definition c11_sl_run_deep (fx : bool) := c11_run (c11_sl_step fx) c11_sl_observe_deep.
 End SL.
 
 (* ======================================================================== lru<Key,Tp> (Key = nat) *)
